@@ -24,7 +24,11 @@ GRV_CMD(shape) {
         const long maxlines = j->get("maxlines", 1000000), chunk = j->get("chunk", 0);
         set_case("shape load %s", font.c_str());
         gr_face *face = gr_make_file_face(font.c_str(), opts);
-        if (!face) { vj::W w; w.str("font", font); report_fail("*", "corpus font failed to load", w.done()); continue; }
+        if (j->has("noload")) {      // the job states that this font must be refused
+            if (face) { vj::W w; w.str("font", font).str("id", id); report_fail((*j)["noload"].s.c_str(), "a font that must be refused was loaded", w.done()); gr_face_destroy(face); }
+            ++g_cases; continue;
+        }
+        if (!face) { vj::W w; w.str("font", font).str("id", id); report_fail(j->has("prop") ? (*j)["prop"].s.c_str() : "*", "font failed to load", w.done()); continue; }
         gr_font *gf = ppm > 0 ? gr_make_font(float(ppm), face) : 0;
         std::vector<std::vector<uint32_t>> texts;
         if (j->has("cps") && (*j)["cps"].kind == vj::Value::Arr) {
